@@ -277,7 +277,9 @@ def raises(ctx):
                     import re as _re
                     convs = _re.findall(r'%[-0-9.]*([sdrfi%])', a0.left.value)
                     convs = [c for c in convs if c != '%']
-                    args = a0.right.elts if isinstance(a0.right, ast.Tuple) else [a0.right]
+                    from .. import normal as _normal
+                    right_ = _normal._Expr().visit(_normal.clone(a0.right))      # (a, b) + (c, d) is the tuple (a, b, c, d)
+                    args = right_.elts if isinstance(right_, ast.Tuple) else [right_]
                     n_msgs += 1
                     r.check(len(convs) == len(args), '%s: message has %d conversions and %d arguments' % (q, len(convs), len(args)), node, construct=q,
                             key='msg-arity ' + a0.left.value[:30], msg='%s: the message %r has %d conversions but %d arguments: building the exception '
